@@ -26,6 +26,12 @@ def pool(rnd, data, n):
         coll("any", ["any"], "default", "v", "", match(["v"], "==", "x")), coll("all", ["zz"], "default", "v", "", match(["v"], "==", "x")),
         coll("any", ["many", "zz"], "default", "v", "", match(["v"], "==", "x")), coll("all", ["many", "zz"], "default", "v", "", match(["v"], "==", "x")),
         coll("any", ["mi"], "both", "k", "v", match(["v"], "==", "2")), coll("all", ["tags"], "default", "v", "", match(["v"], "!=", "a")),
+        # a binding named like a top-level key that the other operand uses; early exit of the quantifier
+        coll("any", ["li"], "default", "i", "", match(["i"], "==", "2")), match(["i"], "==", "-5"), match(["i"], "!=", "-5"),
+        coll("all", ["li"], "both", "s", "b", match(["b"], "==", "1")), match(["b"], "==", "true"),
+        coll("any", ["tags"], "default", "name", "", match(["name"], "==", "b")), match(["name"], "==", "web"),
+        # the same selector with different patterns / literals
+        match(["s"], "matches", "^h"), match(["s"], "matches", "zzz"), match(["s"], "matches", "o$"), match(["name"], "matches", "^web"), match(["name"], "matches", "dev$"),
     ]
     return fixed + atoms[:n]
 
